@@ -65,6 +65,8 @@ def hist_suite(ctx, vh):
                         + (["ActMerge"] if ctx.thorough else []))
     ini = ctx.tlc("Replica", "MC_Replica_init.cfg", timeout=900, cache=True)
     ctx.require_actions(ini, ["DeliverBad", "DeliverInit"])
+    poi = ctx.tlc("Replica", "MC_Replica_poison.cfg", timeout=1500, cache=True)
+    ctx.require_actions(poi, ["DeliverPoison", "Flush", "Commit", "Deliver"])
     n = 60 if ctx.thorough else 12          # traces per worker; TLC emits every sibling of the last step
     sim = ctx.tlc("Replica", "Sim_Replica.cfg", timeout=3000, simulate=n, depth=120, cache=True, workers=8)
     simb = sorted({json.dumps(b, sort_keys=True) for b in sim.replays})
@@ -84,12 +86,14 @@ def hist_suite(ctx, vh):
     mcb = verif.sample(ctx.rng, mc.replays, 40000) if ctx.thorough else verif.sample(ctx.rng, mc.replays, 8000)
     simb = simb if ctx.thorough else verif.sample(ctx.rng, simb, 4000)
     ctx.cov["hist_behaviours"] = {"mc_exhaustive_total": len(mc.replays), "mc_replayed": len(mcb),
-                                  "init_shapes": len(ini.replays), "simulated_replayed": len(simb),
+                                  "init_shapes": len(ini.replays), "poison_exhaustive": len(poi.replays), "simulated_replayed": len(simb),
                                   "mc_states": mc.states}
     if not mcb or not simb or not ini.replays:
         raise verif.ToolError("Replica emitted no behaviours")
     out += ctx.run_engine(vh, "hist", mcb, opts={"hello": 1, "reps": 2}, tag="hist-mc", timeout=1800)
     out += ctx.run_engine(vh, "hist", ini.replays, opts={"hello": 1, "reps": 2}, tag="hist-init")
+    # C06: a rejected command (and a child naming it) at every position of every small transaction
+    out += ctx.run_engine(vh, "hist", poi.replays, opts={"hello": 1, "reps": 2, "boot_all": 1}, tag="hist-poison", timeout=1800)
     out += ctx.run_engine(vh, "hist", simb, opts={"hello": 1, "reps": 3, "boot_all": 1}, tag="hist-sim", timeout=1800)
     # pinned regressions (histories that once failed)
     import glob, os
